@@ -11,9 +11,9 @@ git diff -- src macros > /tmp/$name.patch
 suite=$(cargo test --offline --lib 2>&1 | grep -E "^test result" | head -1)
 doc=$(cargo test --offline --doc 2>&1 | grep -E "^test result" | head -1)
 with=$(cargo test --offline --test mutant_demo 2>&1 | grep -E "^test result" | head -1)
-git stash push -q -- src macros
+git diff -- src macros > /tmp/$name.keep.patch; git apply -R /tmp/$name.keep.patch
 without=$(cargo test --offline --test mutant_demo 2>&1 | grep -E "^test result" | head -1)
-git stash pop -q
+git apply /tmp/$name.keep.patch
 mkdir -p /verif/seeded/$name
 cp /tmp/$name.patch /verif/seeded/$name/patch.diff
 cp tests/mutant_demo.rs /verif/seeded/$name/mutant_demo.rs
